@@ -235,6 +235,10 @@ def decode_index(items, as_tuple=True):
             out.append(None)
         elif t == "l":
             out.append(list(it[1]))
+        elif t == "t":                       # integer sequence spelled as a tuple (still advanced indexing)
+            out.append(tuple(it[1]))
+        elif t == "a":                       # integer sequence spelled as an ndarray
+            out.append(np.array(it[1], dtype=np.int64))
         elif t == "m":
             out.append(np.array(it[1], dtype=bool))
         else:
@@ -272,7 +276,7 @@ def gen_getitem(draw):
         if kind == "l" and n_adv < 2 and not mask_used:
             if adv_len is None:
                 adv_len = draw(st.integers(1, 4))
-            per.append(["l", [draw(st.integers(-n, n - 1)) for _ in range(adv_len)]])
+            per.append([draw(st.sampled_from(["l", "l", "t", "a"])), [draw(st.integers(-n, n - 1)) for _ in range(adv_len)]])
             n_adv += 1
         elif kind == "m" and n_adv == 0 and not mask_used:
             msk = [draw(st.booleans()) for _ in range(n)]
@@ -288,7 +292,7 @@ def gen_getitem(draw):
     # sprinkle newaxis
     for _ in range(draw(st.sampled_from([0, 0, 1, 2]))):
         items.insert(draw(st.integers(0, len(items))), ["n"])
-    as_tuple = draw(st.booleans()) or len(items) != 1
+    as_tuple = draw(st.booleans()) or len(items) != 1 or items[0][0] == "t"
     return {"xs": [X(shp, draw(gen.grid(shp)))], "args": {"key": items, "tuple": as_tuple}}
 
 
@@ -303,11 +307,15 @@ def ref_getitem(xs, args):
 
 def _getitem_tags(args, shapes):
     t = []
-    kinds = [it[0] for it in args["key"]]
+    kinds = ["l" if it[0] in ("t", "a") else it[0] for it in args["key"]]
+    if any(it[0] == "t" for it in args["key"]):
+        t.append("int_tuple_index")
+    if any(it[0] == "a" for it in args["key"]):
+        t.append("int_ndarray_index")
     if "l" in kinds:
         t.append("int_list_index")
         for it in args["key"]:
-            if it[0] == "l":
+            if it[0] in ("l", "t", "a"):
                 if len(set(it[1])) < len(it[1]):
                     t.append("repeated_index")
                     break
@@ -884,6 +892,9 @@ BY_NAME = {o.name: o for o in OPS}
 for _n in ("binary", "scalar_arith", "neg", "matmul", "addmm", "getitem", "concat", "stack", "unbind", "clone", "sum", "mean",
            "max", "min", "squeeze", "unsqueeze", "reshape", "movedim", "transpose", "flatten", "unfold_dim", "sqrt"):
     BY_NAME[_n].scales = (1.0, 1.0, 1.0, 128.0, 1.0 / 64)
+# extreme but in-domain magnitudes for the ops whose derivative has no cancellation
+for _n in ("sqrt", "neg", "clone", "sum", "getitem", "reshape", "transpose"):
+    BY_NAME[_n].scales = BY_NAME[_n].scales + (2.0 ** -60, 2.0 ** 40)
 
 # documented-argument predicates that need more than a lambda ---------------------------------
 BY_NAME["squeeze"].documented = lambda a, s: True          # "dim (int or tuple, optional)"
@@ -908,6 +919,7 @@ def full_case(draw, op, need_grad=True):
     c["g"] = draw(gen.upstream())
     c["gdtype"] = draw(st.sampled_from(["same", "same", "other"]))
     c["layout"] = draw(st.sampled_from(["C", "C", "C", "F", "strided", "neg_strided"]))
+    c["param"] = [draw(st.sampled_from([False, False, True])) for _ in range(n)]   # operand is an nn.Parameter
     c["scale"] = draw(st.sampled_from(list(op.scales)))
     c["wrap"] = draw(st.booleans())
     if op.multi:
@@ -939,7 +951,10 @@ def leaves(case, dtype=None, rg=None):
     for i, x in enumerate(case["xs"]):
         a = _layout((gen.arr(x["v"], x["shape"], np.float64) * sc).astype(dt), case.get("layout", "C"))
         r = bool(rg[i]) if rg is not None else False
-        out.append(Tensor(a, requires_grad=r))
+        t = Tensor(a, requires_grad=r)
+        if case.get("param") and case["param"][i % len(case["param"])] and dt.kind == "f":
+            t = sg.nn.Parameter(t)           # a Tensor subclass: must behave exactly like a Tensor operand
+        out.append(t)
     return out
 
 
